@@ -61,6 +61,7 @@ func runC06(c *Ctx) {
 	c06offset(c, m)
 	c06batchSkip(c, m)
 	c06xerial(c, m)
+	c06legacyMasks(c, m)
 	cursorAdvanceRule(c, m)
 	fetchKeepRules(c, m)
 	abortRules(c, m)
@@ -133,6 +134,21 @@ func c05kfakeAbortedIndex(c *Ctx) {
 		})
 	}
 	c.Floor(rule+"/searches", nSearch, 3)
+	// the last stable offset moves with an append only while NO transaction is
+	// open on the partition (whoever appends): a plain append behind another
+	// producer's open transaction must not expose that transaction's records
+	if pf := c.NeedFunc(m, "kfake.Cluster.pushBatch"); pf != nil {
+		lso := m.Field("kfake", "partData", "lastStableOffset")
+		pg := pf.Graph()
+		k := 0
+		for _, st := range storesTo(pf.Decl.Body, pf.Info(), lso, false) {
+			k++
+			l, _ := pg.LocOf(st.Node)
+			noOpen := factMatches(pg.FactsAt(l), func(ft Fact) bool { return ft.Val && nosp(exprStr(ft.Cond)) == "len(pd.uncommittedPIDs)==0" })
+			c.Check(noOpen, "kfake-lso-behind-open-transactions", pf.Key+": lastStableOffset advanced only with no open transaction", st.Node.Pos(), m, "", "pushBatch advances the last stable offset without the `no open transaction on this partition` test: a read_committed fetch then returns records of a still-open transaction, which cannot be filtered (it is not in the aborted list) and may later abort")
+		}
+		c.Check(k >= 1, "kfake-lso-behind-open-transactions", pf.Key+"#store", pf.Pos(), m, "", "lastStableOffset store not found in pushBatch")
+	}
 	f := c.NeedFunc(m, "kfake.Cluster.handleFetch")
 	if f == nil {
 		return
@@ -1049,4 +1065,37 @@ func c06xerial(c *Ctx, m *Module) {
 		c.Check(ok, rule, f.Key+": output = "+exprStr(rhs)+"#"+ordinal(&n), f.Pos(), m, "each chunk is copied onto the output", "the output is assigned `"+exprStr(rhs)+"` instead of append(output, chunk...): it aliases the reused scratch buffer, and a later chunk overwrites the bytes of an earlier one (multi-block xerial frames from Java producers decode to corrupt records)")
 	}
 	c.Floor(rule+"/output-stores", n, 1)
+}
+
+// c06legacyMasks: the reserved-attribute test of the pre-0.11 message formats.
+// Magic 0 uses the low three bits (compression); magic 1 additionally uses bit 3
+// (timestamp type, set for LogAppendTime topics).  Rejecting bit 3 on a v1
+// message drops valid data.
+func c06legacyMasks(c *Ctx, m *Module) {
+	rule := "legacy-message-reserved-bits"
+	for _, w := range []struct {
+		key  string
+		mask int64
+	}{{"kgo.ProcessFetchPartitionOpts.processV0Message", 0xF8}, {"kgo.ProcessFetchPartitionOpts.processV1Message", 0xF0}} {
+		f := c.NeedFunc(m, w.key)
+		if f == nil {
+			continue
+		}
+		info := f.Info()
+		n := 0
+		ast.Inspect(f.Decl.Body, func(x ast.Node) bool {
+			be, ok := x.(*ast.BinaryExpr)
+			if !ok || be.Op != token.AND || !strings.Contains(nosp(exprStr(be.X)), ".Attributes") {
+				return true
+			}
+			v, isC := constInt(info, be.Y)
+			if !isC || v < 0x10 {
+				return true // the compression / codec mask
+			}
+			n++
+			c.Check(v == w.mask, rule, fmt.Sprintf("%s: reserved attribute mask", w.key), be.Pos(), m, fmt.Sprintf("%#x", w.mask), fmt.Sprintf("the reserved-bits mask is %#x, the format reserves %#x: valid messages (e.g. magic 1 with the LogAppendTime bit 0x08) are rejected and everything after them is not returned", v, w.mask))
+			return true
+		})
+		c.Check(n == 1, rule, w.key+"#mask", f.Pos(), m, "", "reserved attribute test not found")
+	}
 }
